@@ -26,7 +26,7 @@ STATUS = {
  "C15": ("table_pinned over the crate table REGENERATED from add_rust_crate on every run, all_pinned, unknown_refused, deps_exact, names_nodup; json_trigger_found_everywhere / async_trigger_found_everywhere (Tool/Scanners: every walker step is one the scanner follows), json_trigger_was_missed witness", "ProjectGenerator + `incan build` (stub cargo) + trigger positions (json_stringify in 40 statement / expression / owner positions; serde derives in every decorator / list / declaration position); scanner sweep: model scans = real detect_*_usage with a trigger at every expression position of ~200 programs", "exactness, pinning, refs ⊆ declared; every placement of serde / async / web over the entry file and two dependency modules"),
  "C16": ("verdict_truthful, skip_not_run, xfail_inverts, filter_exact, all_selected_reported, exit_iff_failure, counts_match, collect_complete / collect_sound / collect_length (discovery over several files), first_of_name_hides_a_failure witness (Props/C16, Tool/TestRunner)", "real `incan test` on generated files (every executed test through cargo test)", "ground truth of the test bodies (9 ways to fail: assert, assert_eq / ne / true / false, fail, index, division by zero, unwrap of None), -k with and without --slow over matching slow tests, -x, four @skip spellings, the same test name in two files, nested directories and a symlinked directory, test bodies printing lines that look like the harness's own verdicts, runs whose only blemish is an unexpected pass"),
  "C17": ("construction_validated_partial, rejected_argument_stops, own_methods_exempt, other_methods_checked, select_sound / select_from_underlying / select_single, nominal, alias_bypasses witness (Props/C17, Sem/Newtype)", "compiled programs: 11 fixed declaration shapes + generated ones (1-3 methods, hook-shaped or near misses, hook-like and other names) × 23 sites (incl. the payload of another newtype as the argument, list elements, f-strings) × values; 6 underlying types", "hook enforced outside own methods; mixing newtypes rejected at 26 sites (annotations, return, argument, kwarg, default, method argument, field, append / insert / extend / index / dict store, Option / Result / tuple / comprehension / match arm)"),
- "C18": ("converges for all interleavings (ticket protocol); 3 counter-examples for the old protocol; save_with_ticket_loses_newer_version and per_document_tickets_resurrect_old_text witnesses; open_dependency_overrides_disk", "event-log replay (histories with opens, changes, closes and interleaved didSave notifications; texts that parse, fail in the parser or fail in the lexer); importer diagnostics with a dependency text in the editor vs on disk", "hover = latest after quiescence; dependency scenarios must be sensitive"),
+ "C18": ("converges for all interleavings (ticket protocol); 3 counter-examples for the old protocol; save_with_ticket_loses_newer_version and per_document_tickets_resurrect_old_text witnesses; open_dependency_overrides_disk", "event-log replay (histories with opens, changes, closes and interleaved didSave notifications; texts that parse, fail in the parser or fail in the lexer; per history one serial schedule, schedules starving each of the first three handlers, a burst schedule (first polls in arrival order while the client reads nothing) and seeded schedules); importer diagnostics with a dependency text in the editor vs on disk", "hover = latest after quiescence; dependency scenarios must be sensitive"),
  "C19": ("roundtrip, strict_mono, counting, range_wellformed, terminal_line_agrees, terminal_col_agrees (unconditional since the character-column fix; old_terminal_col_counted_bytes keeps the pre-fix witness)", "5 streams, exhaustive small documents over a, é, €, 😀, LF, CR, TAB; rendered caret line; the whole rendering (caret padding, underline length) for every span, multi-line and past-the-end spans included", "counting in Python"),
  "C20": ("roundtrip (mutual, any depth), json_field_names, type_mapping, eq_iff_structural, eq_fields, ord_lexicographic, cmpV_swap (mutual, any depth), lt_iff_gt, cmpV_refl_of_eq, hash_respects_eq, derives_closed, derives_kept, chain_fields_in_declaration_order / chain_lookup (inherited fields, Props/C20, Sem/Derive)", "compiled programs: json_stringify + from_json, six comparison operators, Dict keys, clone (fields declared on one model/class or over a chain of 2-3 classes); emitted #[derive] list for subsets", "Python json / tuple order; rustc supertrait closure"),
 }
@@ -99,6 +99,27 @@ Deviations from the round-0 plan (errata):
     for pid in sorted(STATUS):
         t, tie, orc = STATUS[pid]
         out.append(f"| {pid} | {t} | {tie} | {orc} |")
+    out.append("")
+    # sizes, from the property files and the evidence of the last clean quick run
+    out.append("### A.2 Size (generated: property theorems per file, obligations and evaluations of the last clean quick run)\n")
+    out.append("| Prop | theorems in Props/Cxx.lean | obligations discharged (theorems + axiom audits + correspondences) | evaluations per quick run | stored seeded changes |")
+    out.append("|---|---|---|---|---|")
+    tot_t = tot_o = tot_e = tot_s = 0
+    for pid in sorted(STATUS):
+        try:
+            src = open(os.path.join(HERE, "lean", "IncanModel", "Props", f"{pid}.lean")).read()
+            nt = sum(1 for l in src.split("\n") if l.startswith("theorem "))
+        except OSError:
+            nt = 0
+        try:
+            ev = json.load(open(os.path.join(HERE, "evidence", f"{pid}.json")))["coverage"]
+            no, ne = ev.get("discharged", 0), ev.get("evaluations", 0)
+        except (OSError, KeyError, ValueError):
+            no, ne = 0, 0
+        ns = len(glob.glob(os.path.join(HERE, "seeded", f"{pid}-*")))
+        tot_t += nt; tot_o += no; tot_e += ne; tot_s += ns
+        out.append(f"| {pid} | {nt} | {no} | {ne} | {ns} |")
+    out.append(f"| all | {tot_t} | {tot_o} | {tot_e} | {tot_s} |")
     out.append("")
     # fixes
     log = sh("git", "-C", "/repo", "log", "--reverse", "--format=%h %s", "45ea34d..HEAD").strip().split("\n")
@@ -193,6 +214,15 @@ __R4TEXT__""")
                   "unchanged tree, repaired: string comparison helpers moving their operands, `and` / `or` on non-bools and `for` over a number accepted, "
                   "`run(port=…)` rewritten on user classes, `__eq__` parameter names, keyword-named imports, fixture and directory order, `**` on an "
                   "integer variable, blanks inside f-string interpolations.\n")
+    r4text += ("\nAfter round 4 every stored seed was applied once more to the final checks (`git apply`, `./check`, undo): 157 of 160 are "
+               "reported; C03-5 is the superseded one (above); C03-4 no longer applies (a later `fix:` rewrote the function it edits). Three "
+               "seeds that had been caught earlier were missed in this sweep — C10-4, C11-4 and C18-5 had been caught by whatever the seeded "
+               "random streams happened to draw, and later additions to the generators shifted those draws. The inputs they need are now "
+               "produced deterministically: a cut after every line that ends in `return` / `pass` / `break` / `continue` / `...` (C10), "
+               "constructor patterns with 0-3 sub-patterns on scrutinees with too few or too many type arguments (C11), and schedules that "
+               "starve each of the first three handlers in turn or give every notification its first poll while the client reads nothing "
+               "(C18). Lesson recorded: a catch that depends on a random draw is not a catch; each seed's needed input is now generated "
+               "whatever the seed.\n")
     out[-1] = out[-1].replace("__R4TEXT__", r4text)
     out[-1] = out[-1].replace("__R2__", str(len(r2))).replace("__R2MISSLIST__", ", ".join(miss)).replace("__R2MISS__", str(len(miss)))
     out.append("""## Appendix E — hooks
@@ -229,6 +259,18 @@ Corrected false alarms (the machinery was wrong, the code was right; never liste
 * C06 oracle (thorough tier): when an earlier operand has no compile-time value, the const evaluator reports the
   error of a later operand where run time stops at the earlier one; both reject the initializer, so only an error
   reported for an initializer that evaluates fine counts as a disagreement.
+* C06 model: an exponent written `-0` is the literal 0 for `extract_int_literal` (it negates the value), so `1 ** -0`
+  is int; the model called every negated literal negative. Found when the const generator started to produce exponents
+  of every syntactic kind; the model was corrected, the code was right.
+* C09 writer oracle: the first version demanded that the text never end in a blank; the theorem (and the formatter's
+  use of the writer) only promises that for sequences that do not leave a piece ending in a blank pending. The client
+  condition `clientOk` now includes the end of the sequence and the theorem states `endsBlank … = false`.
+* C13 / C17 generators: a position giving an enum a method, and mixing sites written with an `if` expression, a typed
+  closure parameter and a generic function, do not parse or build under any name — reported as `baseline-broken` /
+  parse errors by the checks themselves and removed.
+* C01 oracle: the Python side treated every printed integer of 18 digits or more as "outside the documented range";
+  the boundary-arithmetic template prints the ends of the 64-bit range on purpose and is exempt (values are checked to
+  lie inside i64).
 
 The thorough tier (`./check Cxx --tier thorough`, 10–90 s per property) runs the same stages with 5–10× the inputs,
 every (position, keyword) pair for C13, every subset of derives for C20, deeper nesting, and `leanchecker` on the
